@@ -154,6 +154,8 @@ ARG_POOL = [
     'xs:integer(5)', 'xs:unsignedByte(255)', 'xs:long("-9223372036854775808")', 'xs:NCName("a")', 'xs:language("en-US")',
     'abs#1', 'concat#3', 'function($x) { $x }', 'function($a, $b) { $a }', 'function() { 1 }', 'true#0', 'position#0',
     'function($x) { error() }', 'function($x as xs:integer) as xs:string { $x }', 'map:get(?, 1)', 'math:pow(?, 2)',
+    # presentation modifiers on components that are not numbers, arguments inside (-1, 0) for the logarithms
+    "'[PI]'", "'[Pw]'", "'[ZI]'", "'[Zw]'", "'[EI] [Ea]'", "'[PWw] [za]'", "'[FI] [Fi]'", "'[EWw]'", '-0.5', '-0.999', '-1e-300',
     # implementation limits and unusual but legal values (pristine notes of round 4)
     '9' * 5000, '9' * 4000 + ' * ' + '9' * 4000, '9' * 4299 + ' + ' + '9' * 4299, "'" + '9' * 5000 + "'", "'1e999'", "'\"\\u0000\"'",
     "'{\"\\u0000\": 1}'", "'[Y,99999999999999999999]'", "'[s,99999999999999999999-*]'", "'[D,*-99999999999999999999]'", "'rot13'", "'zlib'",
